@@ -1221,6 +1221,25 @@ func (p *Path) callBuiltin(name string, args []Value, fr *Frame, cc *ssa.CallCom
 			}
 		}
 		return acc
+	case "SliceData":
+		// unsafe.SliceData: the slice itself stands for the pointer to its first element
+		return args[0]
+	case "String":
+		// unsafe.String(ptr, len) with ptr from unsafe.SliceData
+		if sl, ok := args[0].(SliceV); ok {
+			n := p.concreteInt(args[1], "unsafe.String len")
+			if n == 0 {
+				return StrV{}
+			}
+			if n > sl.len {
+				p.unsup("unsafe.String beyond the slice")
+			}
+			bs := make([]*Term, n)
+			for i, e := range sl.elems()[:n] {
+				bs[i] = e.(*Term)
+			}
+			return mkStr(bs)
+		}
 	case "ssa:wrapnilchk":
 		if isNilValue(args[0]) {
 			p.throwRuntime("nil pointer dereference (method value wrapper)")
